@@ -29,15 +29,32 @@ var guardedBy = map[string]string{}
 // reflect.Type to a codec builder, and the map from reflect.Type to a Schema.
 var registryKey, schemaRegistryKey = "avro.registry", "avro.schemaRegistry"
 
+// initOnlyGlobals: package-level variables written only by package initialisers and whose slices or maps are
+// never handed on: constants in all but name (LK-GLOBAL decides exactly this for each of them).
+var initOnlyGlobals map[*ssa.Global]bool
+
 func computeGuardedBy(P *Program) {
 	guardedBy = map[string]string{}
 	isMutex := func(t types.Type) bool {
 		n, ok := types.Unalias(t).(*types.Named)
 		return ok && n.Obj().Pkg() != nil && n.Obj().Pkg().Path() == "sync" && (n.Obj().Name() == "Mutex" || n.Obj().Name() == "RWMutex")
 	}
+	writes := globalWrites(P, P.ModuleFuncs())
+	escapes := globalAliasEscapes(P, P.ModuleFuncs())
+	initOnlyGlobals = map[*ssa.Global]bool{}
+	addrUsed := globalAddressUses(P)
+	for _, g := range moduleGlobals(P) {
+		if len(writes[g]) == 0 && len(escapes[g]) == 0 && !addrUsed[g] {
+			initOnlyGlobals[g] = true
+		}
+	}
 	for _, g := range moduleGlobals(P) {
 		mt, isMap := g.Type().(*types.Pointer).Elem().Underlying().(*types.Map)
 		if !isMap {
+			continue
+		}
+		// a table filled by the package initialiser and only read afterwards needs no guard, whatever its readers lock
+		if len(writes[g]) == 0 {
 			continue
 		}
 		votes := map[string]int{}
@@ -163,7 +180,7 @@ func rootOfAddr(v ssa.Value) (root ssa.Value, deref bool) {
 
 // ---------- must-hold lock dataflow
 
-type lockState map[*ssa.Global]int // 0 none, 1 read, 2 write
+type lockState map[string]int // lock key -> 0 none, 1 read, 2 write
 
 func (s lockState) clone() lockState {
 	o := lockState{}
@@ -200,24 +217,49 @@ func lockEq(a, b lockState) bool {
 	return true
 }
 
-func lockOp(in ssa.Instruction) (g *ssa.Global, op string) {
+// lockKey names a mutex: a package-level one, or the mutex field of a struct
+// reached from a value of this function (the receiver of a method of a type
+// that bundles a mutex with what it guards).
+func lockKey(v ssa.Value) string {
+	switch x := v.(type) {
+	case *ssa.Global:
+		return "G:" + x.String()
+	case *ssa.FieldAddr:
+		if b := lockBaseKey(x.X); b != "" {
+			return fmt.Sprintf("%s.%d", b, x.Field)
+		}
+	}
+	return ""
+}
+
+func lockBaseKey(v ssa.Value) string {
+	switch x := v.(type) {
+	case *ssa.Global:
+		return "G:" + x.String()
+	case *ssa.Parameter:
+		return "P:" + x.Name()
+	case *ssa.FieldAddr:
+		if b := lockBaseKey(x.X); b != "" {
+			return fmt.Sprintf("%s.%d", b, x.Field)
+		}
+	}
+	return ""
+}
+
+func lockOp(in ssa.Instruction) (key string, op string) {
 	call, ok := in.(*ssa.Call) // a deferred Unlock releases at exit: not a release here
 	if !ok {
-		return nil, ""
+		return "", ""
 	}
 	sc := call.Call.StaticCallee()
 	if sc == nil || len(call.Call.Args) == 0 {
-		return nil, ""
+		return "", ""
 	}
 	q := qualName(sc)
 	if !strings.HasPrefix(q, "(*sync.RWMutex).") && !strings.HasPrefix(q, "(*sync.Mutex).") {
-		return nil, ""
+		return "", ""
 	}
-	gg, ok := call.Call.Args[0].(*ssa.Global)
-	if !ok {
-		return nil, ""
-	}
-	return gg, sc.Name()
+	return lockKey(call.Call.Args[0]), sc.Name()
 }
 
 // heldLocks computes, for every instruction of fn, the locks that are held on
@@ -232,7 +274,7 @@ func heldLocks(fn *ssa.Function) map[ssa.Instruction]lockState {
 			if record {
 				res[i] = s.clone()
 			}
-			if g, op := lockOp(i); g != nil {
+			if g, op := lockOp(i); g != "" {
 				switch op {
 				case "Lock":
 					s[g] = 2
@@ -305,7 +347,11 @@ func ruleLKGuard(c *Ctx) {
 		names = append(names, v)
 	}
 	sort.Strings(names)
+	defer ruleLKMonitor(c)
 	for _, vn := range names {
+		if g := globals[vn]; g != nil && monitorTypes[typeKey(g.Type().(*types.Pointer).Elem())] != nil {
+			continue // a struct bundling its own mutex: decided by ruleLKMonitor
+		}
 		v, mu := globals[vn], globals[guardedBy[vn]]
 		if !c.Anchor(v != nil && mu != nil, vn+" guarded by "+guardedBy[vn]) {
 			continue
@@ -325,43 +371,7 @@ func ruleLKGuard(c *Ctx) {
 					if held == nil {
 						held = heldLocks(fn)
 					}
-					for _, use := range referrersOf(ld) {
-						n++
-						key := fmt.Sprintf("%s/%s-access#%d", fnKey(fn), v.Name(), n)
-						need, what := 1, ""
-						switch u := use.(type) {
-						case *ssa.MapUpdate:
-							need, what = 2, "write"
-							if u.Map != ssa.Value(ld) {
-								need, what = 9, "the map value is stored into another map"
-							}
-						case *ssa.Lookup:
-							what = "lookup"
-						case *ssa.Range:
-							what = "range"
-						case *ssa.Call:
-							if bi, ok := u.Call.Value.(*ssa.Builtin); ok && bi.Name() == "len" {
-								what = "len"
-							} else if ok && bi.Name() == "delete" {
-								need, what = 2, "delete"
-							} else {
-								need, what = 9, "the map is passed to a call"
-							}
-						default:
-							need, what = 9, "the map value escapes ("+use.String()+")"
-						}
-						lvl := held[use][mu]
-						switch {
-						case need == 9:
-							c.Bad(key, P.pos(use.Pos()), what+": the guarded map leaves the critical section")
-						case lvl >= need:
-							c.OK(key, P.pos(use.Pos()), fmt.Sprintf("%s of %s with %s held (%s)", what, vn, guardedBy[vn], map[int]string{1: "read lock", 2: "exclusive lock"}[lvl]))
-						case lvl == 1 && need == 2:
-							c.Bad(key, P.pos(use.Pos()), fmt.Sprintf("%s of %s under a read lock only", what, vn))
-						default:
-							c.Bad(key, P.pos(use.Pos()), fmt.Sprintf("%s of %s without %s held on every path", what, vn, guardedBy[vn]))
-						}
-					}
+					n = judgeGuardedUses(c, fn, ld, held, lockKey(mu), v.Name(), vn, guardedBy[vn], n)
 				}
 			}
 		}
@@ -904,6 +914,256 @@ func globalAliasEscapes(P *Program, fns []*ssa.Function) map[*ssa.Global][]ssa.I
 					}
 				}
 				walk(ld)
+			}
+		}
+	}
+	return out
+}
+
+// judgeGuardedUses decides every use of one load of a guarded map: the lock
+// named muKey must be held (exclusively for writes) and the map value must
+// not leave the critical section.
+func judgeGuardedUses(c *Ctx, fn *ssa.Function, ld *ssa.UnOp, held map[ssa.Instruction]lockState, muKey, short, vn, muName string, n int) int {
+	P := c.P
+	for _, use := range referrersOf(ld) {
+		n++
+		key := fmt.Sprintf("%s/%s-access#%d", fnKey(fn), short, n)
+		need, what := 1, ""
+		switch u := use.(type) {
+		case *ssa.DebugRef:
+			n--
+			continue
+		case *ssa.MapUpdate:
+			need, what = 2, "write"
+			if u.Map != ssa.Value(ld) {
+				need, what = 9, "the map value is stored into another map"
+			}
+		case *ssa.Lookup:
+			what = "lookup"
+		case *ssa.Range:
+			what = "range"
+		case *ssa.Call:
+			if bi, ok := u.Call.Value.(*ssa.Builtin); ok && bi.Name() == "len" {
+				what = "len"
+			} else if ok && bi.Name() == "delete" {
+				need, what = 2, "delete"
+			} else {
+				need, what = 9, "the map is passed to a call"
+			}
+		default:
+			need, what = 9, "the map value escapes ("+use.String()+")"
+		}
+		lvl := held[use][muKey]
+		switch {
+		case need == 9:
+			c.Bad(key, P.pos(use.Pos()), what+": the guarded map leaves the critical section")
+		case lvl >= need:
+			c.OK(key, P.pos(use.Pos()), fmt.Sprintf("%s of %s with %s held (%s)", what, vn, muName, map[int]string{1: "read lock", 2: "exclusive lock"}[lvl]))
+		case lvl == 1 && need == 2:
+			c.Bad(key, P.pos(use.Pos()), fmt.Sprintf("%s of %s under a read lock only", what, vn))
+		default:
+			c.Bad(key, P.pos(use.Pos()), fmt.Sprintf("%s of %s without %s held on every path", what, vn, muName))
+		}
+	}
+	return n
+}
+
+// monitorType describes a module struct that bundles one mutex with the maps
+// it guards (the same discipline as a package-level map with its
+// package-level mutex, spelled as a type).
+type monitorType struct {
+	T    *types.Named
+	Mu   int
+	Maps []int
+}
+
+var monitorTypes map[string]*monitorType
+
+func computeMonitorTypes(P *Program) {
+	monitorTypes = map[string]*monitorType{}
+	isMutex := func(t types.Type) bool {
+		n, ok := types.Unalias(t).(*types.Named)
+		return ok && n.Obj().Pkg() != nil && n.Obj().Pkg().Path() == "sync" && (n.Obj().Name() == "Mutex" || n.Obj().Name() == "RWMutex")
+	}
+	for _, sp := range []*ssa.Package{P.Avro, P.Time, P.Null} {
+		if sp == nil {
+			continue
+		}
+		sc := sp.Pkg.Scope()
+		for _, name := range sc.Names() {
+			tn, ok := sc.Lookup(name).(*types.TypeName)
+			if !ok || tn.IsAlias() {
+				continue
+			}
+			nt, ok := tn.Type().(*types.Named)
+			if !ok {
+				continue
+			}
+			st, ok := nt.Underlying().(*types.Struct)
+			if !ok {
+				continue
+			}
+			m := &monitorType{T: nt, Mu: -1}
+			nMu := 0
+			for i := 0; i < st.NumFields(); i++ {
+				if isMutex(st.Field(i).Type()) {
+					m.Mu = i
+					nMu++
+				}
+				if _, isMap := st.Field(i).Type().Underlying().(*types.Map); isMap {
+					m.Maps = append(m.Maps, i)
+				}
+			}
+			if nMu == 1 && len(m.Maps) > 0 {
+				monitorTypes[typeKey(nt)] = m
+			}
+		}
+	}
+	// a package-level variable of such a type is "guarded" by its own mutex
+	for _, g := range moduleGlobals(P) {
+		if m := monitorTypes[typeKey(g.Type().(*types.Pointer).Elem())]; m != nil {
+			guardedBy[globalKey(g)] = globalKey(g) + "." + m.T.Underlying().(*types.Struct).Field(m.Mu).Name()
+		}
+	}
+}
+
+// ruleLKMonitor: LK-GUARD for maps held in a struct next to their mutex.
+func ruleLKMonitor(c *Ctx) {
+	P := c.P
+	var names []string
+	for k := range monitorTypes {
+		names = append(names, k)
+	}
+	sort.Strings(names)
+	for _, tk := range names {
+		m := monitorTypes[tk]
+		st := m.T.Underlying().(*types.Struct)
+		for _, fn := range P.ModuleFuncs() {
+			if isInitBody(fn) {
+				continue
+			}
+			var held map[ssa.Instruction]lockState
+			n := 0
+			for _, b := range fn.Blocks {
+				for _, in := range b.Instrs {
+					fa, ok := in.(*ssa.FieldAddr)
+					if !ok {
+						continue
+					}
+					pt, ok := fa.X.Type().Underlying().(*types.Pointer)
+					if !ok || !types.Identical(types.Unalias(pt.Elem()), m.T) {
+						continue
+					}
+					isMapField := false
+					for _, i := range m.Maps {
+						if fa.Field == i {
+							isMapField = true
+						}
+					}
+					if !isMapField {
+						continue
+					}
+					base := lockBaseKey(fa.X)
+					vn := tk + "." + st.Field(fa.Field).Name()
+					muName := tk + "." + st.Field(m.Mu).Name()
+					if held == nil {
+						held = heldLocks(fn)
+					}
+					for _, r := range referrersOf(fa) {
+						switch x := r.(type) {
+						case *ssa.DebugRef:
+						case *ssa.UnOp:
+							if x.Op == token.MUL {
+								if base == "" {
+									n++
+									c.Bad(fmt.Sprintf("%s/%s-access#%d", fnKey(fn), st.Field(fa.Field).Name(), n), P.pos(x.Pos()), "the guarded map is reached through a value whose mutex cannot be named here")
+									continue
+								}
+								n = judgeGuardedUses(c, fn, x, held, fmt.Sprintf("%s.%d", base, m.Mu), st.Field(fa.Field).Name(), vn, muName, n)
+							}
+						case *ssa.Store:
+							// (re)initialising the map itself is a write
+							n++
+							key := fmt.Sprintf("%s/%s-access#%d", fnKey(fn), st.Field(fa.Field).Name(), n)
+							lvl := 0
+							if base != "" {
+								lvl = held[r][fmt.Sprintf("%s.%d", base, m.Mu)]
+							}
+							// a freshly allocated value nobody else can see yet needs no lock
+							if a, isA := fa.X.(*ssa.Alloc); isA && x.Addr == ssa.Value(fa) {
+								_ = a
+								c.OK(key, P.pos(x.Pos()), "initialising the map of a value under construction")
+								continue
+							}
+							c.Check(lvl >= 2, key, P.pos(x.Pos()), "the map is replaced with the exclusive lock held", fmt.Sprintf("%s is assigned without %s held exclusively", vn, muName))
+						default:
+							n++
+							c.Bad(fmt.Sprintf("%s/%s-access#%d", fnKey(fn), st.Field(fa.Field).Name(), n), P.pos(r.Pos()), "the address of the guarded map leaves the method ("+r.String()+")")
+						}
+					}
+				}
+			}
+		}
+	}
+}
+
+// globalAddressUses: the package-level variables whose address (or the
+// address of a part) is, outside package initialisers, used for anything but
+// loading from it: passed to a call (a method with a pointer receiver can
+// write), stored, returned, converted.
+func globalAddressUses(P *Program) map[*ssa.Global]bool {
+	out := map[*ssa.Global]bool{}
+	var onlyLoads func(addr ssa.Value, d int) bool
+	onlyLoads = func(addr ssa.Value, d int) bool {
+		if d > 6 {
+			return false
+		}
+		for _, r := range referrersOf(addr) {
+			switch x := r.(type) {
+			case *ssa.DebugRef:
+			case *ssa.UnOp:
+				if x.Op != token.MUL {
+					return false
+				}
+			case *ssa.FieldAddr, *ssa.IndexAddr:
+				if !onlyLoads(x.(ssa.Value), d+1) {
+					return false
+				}
+			default:
+				return false
+			}
+		}
+		return true
+	}
+	for _, fn := range P.ModuleFuncs() {
+		if isInitBody(fn) {
+			continue
+		}
+		for _, b := range fn.Blocks {
+			for _, in := range b.Instrs {
+				for _, op := range in.Operands(nil) {
+					g, ok := (*op).(*ssa.Global)
+					if !ok || g.Pkg == nil || !P.isModulePkg(g.Pkg.Pkg) {
+						continue
+					}
+					switch x := in.(type) {
+					case *ssa.UnOp:
+						if x.Op == token.MUL && x.X == ssa.Value(g) {
+							continue
+						}
+					case *ssa.FieldAddr:
+						if x.X == ssa.Value(g) && onlyLoads(x, 0) {
+							continue
+						}
+					case *ssa.IndexAddr:
+						if x.X == ssa.Value(g) && onlyLoads(x, 0) {
+							continue
+						}
+					case *ssa.DebugRef:
+						continue
+					}
+					out[g] = true
+				}
 			}
 		}
 	}
